@@ -249,6 +249,28 @@ pub fn rewrites(s: &S, goal: &Ty, fresh: usize, light: bool) -> Vec<(&'static st
             out.push(("R3-unused-definition-end", v));
         }
     }
+    // R3 inside: an unused value definition at the end of every group of the program, nested ones
+    // included (a group of one definition becomes a group of two)
+    for v in at_each_position(s, false, &|t, in_let_body| {
+        if in_let_body || !matches!(t, S::Let { .. }) {
+            return vec![];
+        }
+        fn append(s: &S, name: &str) -> S {
+            match s {
+                S::Let { name: n, ann, def, body } if matches!(**body, S::Let { .. }) => S::Let { name: n.clone(), ann: ann.clone(), def: def.clone(), body: bx(append(body, name)) },
+                S::Let { name: n, ann, def, body } => S::Let {
+                    name: n.clone(),
+                    ann: ann.clone(),
+                    def: def.clone(),
+                    body: bx(S::Let { name: name.to_owned(), ann: Some(bx(S::Int)), def: bx(S::Lit("0".into())), body: body.clone() }),
+                },
+                other => other.clone(),
+            }
+        }
+        vec![append(t, &format!("i{fresh}"))]
+    }) {
+        out.push(("R3-unused-definition-inside", v));
+    }
     // R4: name a subexpression with a definition (strict positions: the whole program, and any
     // int/bool-typed subexpression that is not under a binder or in a branch — here: the whole program)
     out.push(("R4-name-program", S::Let { name: f("n"), ann: Some(bx(goal.expr())), def: bx(s.clone()), body: bx(S::Var(f("n"))) }));
@@ -635,7 +657,7 @@ impl Prop for C19 {
     fn evidence(&self, tier: Tier) -> EvidenceSpec {
         EvidenceSpec {
             level: "model_checking",
-            rule: "states = program texts; initial states = every type-directed program of type int, bool or type up to the size bound, every member of the nested-group family (recursive functions with helpers defined before or after them, nested groups), and every member of the mixed-group family (groups of 4 annotated definitions, each a literal, a function or a computed definition mentioning at most 1 member of the group, and groups of 3 mentioning at most 2, any member as the body), and every arithmetic / comparison sentence over literals of 5..9/10 tokens, that the real front end accepts and the real evaluator takes to a value; transitions = one rewrite at one site: R1 rename any bound variable consistently, R2 parenthesise any subexpression, R3 add an unused definition (a value, a non-value, a type) in front of the program or at the end of its outermost group, R4 name the program with a definition, R5 wrap the program or any subexpression whose head fixes its type in an immediately applied annotated identity function, R6 wrap it in `if true then e else e`, R7 swap two function definitions of a group, adjacent or not, that do not mention each other. Breadth-first search to depth 2 (smaller programs) / 1 (larger), dedup on the program text. Every reachable program is run through the real front end and evaluator and must show the behaviour of the initial program (same acceptance, same value). non-trivial = initial programs whose whole neighbourhood was explored".to_owned(),
+            rule: "states = program texts; initial states = every type-directed program of type int, bool or type up to the size bound, every member of the nested-group family (recursive functions with helpers defined before or after them, nested groups), and every member of the mixed-group family (groups of 4 annotated definitions, each a literal, a function or a computed definition mentioning at most 1 member of the group, and groups of 3 mentioning at most 2, any member as the body), and every arithmetic / comparison sentence over literals of 5..9/10 tokens, that the real front end accepts and the real evaluator takes to a value; transitions = one rewrite at one site: R1 rename any bound variable consistently, R2 parenthesise any subexpression, R3 add an unused definition (a value, a non-value, a type) in front of the program, at the end of its outermost group, or (a value) at the end of any nested group, R4 name the program with a definition, R5 wrap the program or any subexpression whose head fixes its type in an immediately applied annotated identity function, R6 wrap it in `if true then e else e`, R7 swap two function definitions of a group, adjacent or not, that do not mention each other. Breadth-first search to depth 2 (smaller programs) / 1 (larger), dedup on the program text. Every reachable program is run through the real front end and evaluator and must show the behaviour of the initial program (same acceptance, same value). non-trivial = initial programs whose whole neighbourhood was explored".to_owned(),
             assumptions: vec!["no reference model is involved: the comparison is between two runs of the real code".to_owned()],
             evaluations: "evaluations",
             nontrivial: "nontrivial",
